@@ -11,7 +11,9 @@ Definition mono_at (n m : nat) : Prop :=
   (forall r es v, eval_list n p r es = v -> v <> Timeout -> eval_list m p r es = v) /\
   (forall f vs v, call n p f vs = v -> v <> Timeout -> call m p f vs = v) /\
   (forall r s v, exec n p r s = v -> v <> Timeout -> exec m p r s = v) /\
-  (forall r c po b v, loop n p r c po b = v -> v <> Timeout -> loop m p r c po b = v).
+  (forall r c po b v, loop n p r c po b = v -> v <> Timeout -> loop m p r c po b = v) /\
+  (forall r tv cs v, exec_cases n p r tv cs = v -> v <> Timeout -> exec_cases m p r tv cs = v) /\
+  (forall r num tv es v, match_any n p r num tv es = v -> v <> Timeout -> match_any m p r num tv es = v).
 
 (* one recursive call in head position of a [bind] *)
 Ltac sub_call3 H Hv t IH :=
@@ -21,6 +23,13 @@ Ltac sub_call3 H Hv t IH :=
   | rewrite (IH _ _ _ E) by discriminate
   | rewrite (IH _ _ _ E) by discriminate
   | exfalso; cbn [bind] in H; apply Hv; symmetry; exact H ].
+Ltac sub_call4 H Hv t IH :=
+  let E := fresh "E" in
+  destruct t eqn:E;
+  [ rewrite (IH _ _ _ _ E) by discriminate
+  | rewrite (IH _ _ _ _ E) by discriminate
+  | rewrite (IH _ _ _ _ E) by discriminate
+  | exfalso; cbn [bind] in H; apply Hv; symmetry; exact H ].
 Ltac sub_call5 H Hv t IH :=
   let E := fresh "E" in
   destruct t eqn:E;
@@ -29,7 +38,7 @@ Ltac sub_call5 H Hv t IH :=
   | rewrite (IH _ _ _ _ _ E) by discriminate
   | exfalso; cbn [bind] in H; apply Hv; symmetry; exact H ].
 
-Ltac mono_go H Hv IHe IHl IHc IHx IHlp :=
+Ltac mono_go H Hv IHe IHl IHc IHx IHlp IHcs IHmt :=
   repeat (cbn [bind fst snd] in H |- *;
     repeat match goal with a : (outcome * env)%type |- _ => destruct a end;
     cbn [bind fst snd] in H |- *;
@@ -39,25 +48,30 @@ Ltac mono_go H Hv IHe IHl IHc IHx IHlp :=
     | bind (call ?n ?q ?f ?vs) _ = _ => sub_call3 H Hv (call n q f vs) IHc
     | bind (exec ?n ?q ?r ?s) _ = _ => sub_call3 H Hv (exec n q r s) IHx
     | bind (loop ?n ?q ?r ?c ?po ?b) _ = _ => sub_call5 H Hv (loop n q r c po b) IHlp
+    | bind (exec_cases ?n ?q ?r ?tv ?cs) _ = _ => sub_call4 H Hv (exec_cases n q r tv cs) IHcs
+    | bind (match_any ?n ?q ?r ?nm ?tv ?es) _ = _ => sub_call5 H Hv (match_any n q r nm tv es) IHmt
     | context [match ?x with _ => _ end] => destruct x eqn:?
+    | bind (val_match ?a ?b ?c) _ = _ => destruct (val_match a b c) eqn:?
     end);
   cbn [bind fst snd] in H |- *;
   first [ exact H
         | apply IHe; assumption | apply IHl; assumption | apply IHc; assumption
-        | apply IHx; assumption | apply IHlp; assumption
+        | apply IHx; assumption | apply IHlp; assumption | apply IHcs; assumption | apply IHmt; assumption
         | exfalso; apply Hv; symmetry; exact H | exfalso; congruence ].
 
 Lemma mono_le : forall n m, n <= m -> mono_at n m.
 Proof.
   induction n as [|n IH]; intros m Hle.
   - repeat split; intros; simpl in *; congruence.
-  - destruct m as [|m]; [lia|]. destruct (IH m ltac:(lia)) as (IHe & IHl & IHc & IHx & IHlp).
+  - destruct m as [|m]; [lia|]. destruct (IH m ltac:(lia)) as (IHe & IHl & IHc & IHx & IHlp & IHcs & IHmt).
     repeat split.
-    + intros r e v H Hv. destruct e; simpl in H |- *; mono_go H Hv IHe IHl IHc IHx IHlp.
-    + intros r es v H Hv. destruct es; simpl in H |- *; mono_go H Hv IHe IHl IHc IHx IHlp.
-    + intros f vs v H Hv. simpl in H |- *; mono_go H Hv IHe IHl IHc IHx IHlp.
-    + intros r s v H Hv. destruct s; simpl in H |- *; mono_go H Hv IHe IHl IHc IHx IHlp.
-    + intros r c po b v H Hv. simpl in H |- *; mono_go H Hv IHe IHl IHc IHx IHlp.
+    + intros r e v H Hv. destruct e; simpl in H |- *; mono_go H Hv IHe IHl IHc IHx IHlp IHcs IHmt.
+    + intros r es v H Hv. destruct es; simpl in H |- *; mono_go H Hv IHe IHl IHc IHx IHlp IHcs IHmt.
+    + intros f vs v H Hv. simpl in H |- *; mono_go H Hv IHe IHl IHc IHx IHlp IHcs IHmt.
+    + intros r s v H Hv. destruct s; simpl in H |- *; mono_go H Hv IHe IHl IHc IHx IHlp IHcs IHmt.
+    + intros r c po b v H Hv. simpl in H |- *; mono_go H Hv IHe IHl IHc IHx IHlp IHcs IHmt.
+    + intros r tv cs v H Hv. destruct cs; simpl in H |- *; mono_go H Hv IHe IHl IHc IHx IHlp IHcs IHmt.
+    + intros r num tv es v H Hv. destruct es; simpl in H |- *; mono_go H Hv IHe IHl IHc IHx IHlp IHcs IHmt.
 Qed.
 
 End Mono.
